@@ -550,7 +550,10 @@ struct array_iterator  // NOLINT(fuchsia-multiple-inheritance) for facades
 	#pragma clang diagnostic ignored "-Wlarge-by-value-copy"  // TODO(correaa) can it be returned by reference?
 	#endif
 
-	BOOST_MULTI_HD constexpr auto operator->() const -> decltype(auto) { return ptr_; }
+	// the arrow of a mutable iterator reaches a mutable item, as its operator* does (it used to yield the pointer to a read-only view for every iterator)
+	BOOST_MULTI_HD constexpr auto operator->() const -> std::conditional_t<IsConst, ptr_type, subarray_ptr<element, D-1, element_ptr, layout_t<D-1>, false> > {
+		if constexpr(IsConst) { return ptr_; } else { return &(**this); }
+	}
 
 	#if defined(__clang__)
 	#pragma clang diagnostic pop
@@ -2070,6 +2073,32 @@ class subarray : public const_subarray<T, D, ElementPtr, Layout> {
 
 	using const_subarray<T, D, ElementPtr, Layout>::reindexed;
 
+	// the views of a mutable array are mutable: the one-index reindexed, blocked, stenciled and the strided slice only had the read-only versions
+	constexpr auto reindexed(index first)  & -> subarray { return const_subarray<T, D, ElementPtr, Layout>::reindexed(first); }
+	constexpr auto reindexed(index first) && -> subarray { return const_subarray<T, D, ElementPtr, Layout>::reindexed(first); }
+
+	template<class Dummy = void, class BaseView = std::enable_if_t<sizeof(Dummy*) && (D != 0), const_subarray<T, D, ElementPtr, Layout>>>
+	constexpr auto blocked(index first, index last) const& -> decltype(std::declval<BaseView const&>().blocked(first, last)) { return static_cast<BaseView const&>(*this).blocked(first, last); }
+	constexpr auto blocked(index first, index last)  & -> subarray { return this->sliced(first, last).reindexed(first); }
+	constexpr auto blocked(index first, index last) && -> subarray { return this->sliced(first, last).reindexed(first); }
+
+	template<class Dummy = void, class BaseView = std::enable_if_t<sizeof(Dummy*) && (D != 0), const_subarray<T, D, ElementPtr, Layout>>>
+	constexpr auto stenciled(typename subarray::index_extension iex) const& -> decltype(std::declval<BaseView const&>().stenciled(iex)) { return static_cast<BaseView const&>(*this).stenciled(iex); }
+	template<class Dummy = void, class BaseView = std::enable_if_t<sizeof(Dummy*) && (D != 0), const_subarray<T, D, ElementPtr, Layout>>>
+	constexpr auto stenciled(typename subarray::index_extension iex, typename subarray::index_extension iex1) const& -> decltype(std::declval<BaseView const&>().stenciled(iex, iex1)) { return static_cast<BaseView const&>(*this).stenciled(iex, iex1); }
+	template<class Dummy = void, class BaseView = std::enable_if_t<sizeof(Dummy*) && (D != 0), const_subarray<T, D, ElementPtr, Layout>>>
+	constexpr auto stenciled(typename subarray::index_extension iex, typename subarray::index_extension iex1, typename subarray::index_extension iex2) const& -> decltype(std::declval<BaseView const&>().stenciled(iex, iex1, iex2)) { return static_cast<BaseView const&>(*this).stenciled(iex, iex1, iex2); }
+	template<class Dummy = void, class BaseView = std::enable_if_t<sizeof(Dummy*) && (D != 0), const_subarray<T, D, ElementPtr, Layout>>>
+	constexpr auto stenciled(typename subarray::index_extension iex, typename subarray::index_extension iex1, typename subarray::index_extension iex2, typename subarray::index_extension iex3) const& -> decltype(std::declval<BaseView const&>().stenciled(iex, iex1, iex2, iex3)) { return static_cast<BaseView const&>(*this).stenciled(iex, iex1, iex2, iex3); }
+	constexpr auto stenciled(typename subarray::index_extension iex)  & -> subarray { return this->blocked(iex.first(), iex.last()); }
+	constexpr auto stenciled(typename subarray::index_extension iex) && -> subarray { return this->blocked(iex.first(), iex.last()); }
+	constexpr auto stenciled(typename subarray::index_extension iex, typename subarray::index_extension iex1)  & -> subarray { return ((this->stenciled(iex).rotated()).stenciled(iex1)).unrotated(); }
+	constexpr auto stenciled(typename subarray::index_extension iex, typename subarray::index_extension iex1) && -> subarray { return ((this->stenciled(iex).rotated()).stenciled(iex1)).unrotated(); }
+	constexpr auto stenciled(typename subarray::index_extension iex, typename subarray::index_extension iex1, typename subarray::index_extension iex2)  & -> subarray { return ((this->stenciled(iex).rotated()).stenciled(iex1, iex2)).unrotated(); }
+	constexpr auto stenciled(typename subarray::index_extension iex, typename subarray::index_extension iex1, typename subarray::index_extension iex2) && -> subarray { return ((this->stenciled(iex).rotated()).stenciled(iex1, iex2)).unrotated(); }
+	constexpr auto stenciled(typename subarray::index_extension iex, typename subarray::index_extension iex1, typename subarray::index_extension iex2, typename subarray::index_extension iex3)  & -> subarray { return ((this->stenciled(iex).rotated()).stenciled(iex1, iex2, iex3)).unrotated(); }
+	constexpr auto stenciled(typename subarray::index_extension iex, typename subarray::index_extension iex1, typename subarray::index_extension iex2, typename subarray::index_extension iex3) && -> subarray { return ((this->stenciled(iex).rotated()).stenciled(iex1, iex2, iex3)).unrotated(); }
+
 	template<class... Indexes>
 	constexpr auto reindexed(index first, Indexes... idxs) & -> subarray {
 		return const_subarray<T, D, ElementPtr, Layout>::reindexed(first, idxs...);
@@ -2231,6 +2260,8 @@ class subarray : public const_subarray<T, D, ElementPtr, Layout> {
 	using const_subarray<T, D, ElementPtr, Layout>::sliced;
 	BOOST_MULTI_HD constexpr auto sliced(index first, index last) && -> subarray { return const_subarray<T, D, ElementPtr, Layout>::sliced(first, last) ; }
 	BOOST_MULTI_HD constexpr auto sliced(index first, index last)  & -> subarray { return const_subarray<T, D, ElementPtr, Layout>::sliced(first, last) ; }
+	BOOST_MULTI_HD constexpr auto sliced(index first, index last, typename subarray::difference_type stride) && -> subarray { return this->sliced(first, last).strided(stride); }
+	BOOST_MULTI_HD constexpr auto sliced(index first, index last, typename subarray::difference_type stride)  & -> subarray { return this->sliced(first, last).strided(stride); }
 
 	using const_subarray<T, D, ElementPtr, Layout>::range;
 	BOOST_MULTI_HD constexpr auto range(index_range irng)     && -> decltype(auto) {return std::move(*this).sliced(irng.front(), irng.front() + irng.size());}
